@@ -75,6 +75,8 @@ try:
 finally:
     sh("git -C /repo checkout -- .")
     sh("git -C /repo clean -fd")
+    # evidence must describe runs on the unchanged tree only
+    sh("git -C /verif checkout -- evidence", cwd="/verif")
 meta["checks"] = detected
 meta["detected_by"] = [p for p, d in detected.items() if d["violation_lines"]]
 dst = os.path.join("/verif/seeded", name)
